@@ -121,3 +121,42 @@ func VH_C20_loadfont_no_package_state() {
 	vAssertI("C20.frame.loadfont_succeeds", err1 == nil && err2 == nil && f1 != nil && f2 != nil)
 	vAssertI("C20.frame.loadfont_no_unsynchronised_write", vWatchedWrites() == 0)
 }
+
+// C20-H7: "text layout with a shared loaded font ... may be called from any number of goroutines at
+// once".  The font (with the font library, shaper, bidi and script lookup replaced by the stand-ins
+// of the C16 harnesses) is laid out once as a warm-up; then everything reachable from the font
+// face is marked and a second layout (RichText.ToText, NewTextLine, and the glyph outlines through
+// Text.RenderAsPath are not reached with the stand-ins) must not write into any marked object other
+// than through sync/atomic: such a write is a data race between two goroutines that share the font.
+func VH_C20_text_layout_shared_font() {
+	if !vInterp() {
+		return
+	}
+	vStub("!(github.com/tdewolff/canvas/text.Shaper).Shape", vhC16Shape)
+	vStub("!github.com/tdewolff/canvas/text.EmbeddingLevels", vhC16Levels)
+	vStub("!github.com/tdewolff/canvas/text.LookupScript", vhC16Script2)
+	vStub("!(*github.com/tdewolff/font.SFNT).GlyphIndex", vhC16GlyphIndex)
+	vStub("!(*github.com/tdewolff/font.SFNT).GlyphAdvance", vhC16GlyphAdvance)
+	s := vhC16Texts[vChoose(0, 3)]
+	vhC16Adv = map[rune]int32{' ': 250, '\n': 0, '\r': 0, '­': 0}
+	for _, r := range s {
+		if _, has := vhC16Adv[r]; !has {
+			vhC16Adv[r] = 500
+		}
+	}
+	face := vhC16Face()
+	lay := func() int {
+		rt := NewRichText(face)
+		rt.WriteString(s)
+		t := rt.ToText(20, 0, []TextAlign{Left, Justify}[vChoose(0, 1)], Top, 0, 0)
+		l := NewTextLine(face, s, Center)
+		b := t.Bounds()
+		_ = b
+		return len(t.lines) + len(l.lines)
+	}
+	n1 := lay()
+	vWatchValue(face)
+	n2 := lay()
+	vAssertI("C20.frame.layout_repeatable", n1 == n2 && n1 > 0)
+	vAssertI("C20.frame.layout_no_write_to_the_shared_font", vWatchedWrites() == 0)
+}
